@@ -137,7 +137,7 @@ def positive_case(draw):
         if addpath:
             ap = {'ipv4': True}
     elif shape in ('v6', 'v6-unreach'):
-        routes = draw(st.lists(vs.prefix6(), min_size=1, max_size=4))
+        routes = draw(st.lists(vs.prefix6(), min_size=0 if draw(st.integers(0, 7)) == 0 else 1, max_size=4))
         pids = [draw(vs.u32) if addpath else None for _ in routes]
         nl = b''.join(rc.prefix6(p, path_id=i) for p, i in zip(routes, pids))
         e = [{'prefix': p, 'path_id': i} if addpath else p for p, i in zip(routes, pids)]
@@ -154,7 +154,7 @@ def positive_case(draw):
         if addpath:
             ap = {'ipv6': True}
     elif shape == 'vpn4':
-        routes = draw(st.lists(st.tuples(vs.prefix4(), vs.rd_text(), vs.label), min_size=1, max_size=3))
+        routes = draw(st.lists(st.tuples(vs.prefix4(), vs.rd_text(), vs.label), min_size=0 if draw(st.integers(0, 7)) == 0 else 1, max_size=3))
         pids = [draw(vs.u32) if addpath else None for _ in routes]
         nl = b''.join(rc.vpn_route(p, rc.rd(r), [lab], path_id=i) for (p, r, lab), i in zip(routes, pids))
         nh = draw(vs.ipv4_host)
@@ -169,7 +169,7 @@ def positive_case(draw):
         if addpath:
             ap = {'vpnv4': True}
     elif shape == 'lu4':
-        routes = draw(st.lists(st.tuples(vs.prefix4(), st.lists(vs.label, min_size=1, max_size=2)), min_size=1, max_size=3))
+        routes = draw(st.lists(st.tuples(vs.prefix4(), st.lists(vs.label, min_size=1, max_size=2)), min_size=0 if draw(st.integers(0, 7)) == 0 else 1, max_size=3))
         pids = [draw(vs.u32) if addpath else None for _ in routes]
         nl = b''.join(rc.labeled_route(p, labs, path_id=i) for (p, labs), i in zip(routes, pids))
         nh = draw(vs.ipv4_host)
